@@ -1,5 +1,5 @@
-(* C19 — Reinsertion inverts deletion; molecule search partitions atoms by bonds (label glue). *)
-From QV Require Import Model.Atoms Proofs.AtomsProofs.
+(* C19 — Reinsertion inverts deletion; molecule search partitions atoms by bonds. *)
+From QV Require Import Model.Atoms Proofs.AtomsProofs Proofs.ComponentsProofs.
 
 (* any row type (so: every per-atom array), any duplicate-free in-range index list in any order *)
 Theorem C19_reinsert_delete : forall (A : Type) (d : A) (L : list A) (I : list nat),
@@ -50,3 +50,29 @@ Example C19_nonvacuous :
   /\ select 0%Z [10; 11; 12; 13; 14; 15; 16; 17]%Z [6; 1; 4]%nat = [16; 11; 14]%Z
   /\ labels [-1; -2; -3; -4; -5; -6]%Z 2 3 [[0; 2]; [1]; [3; 4; 5]]%nat = [0; -2; 0; 2; 2; 2]%Z.
 Proof. repeat split; reflexivity. Qed.
+
+(* ---- connectivity itself: the model's components (label merging over the within-cutoff pair list) are exactly the classes of the
+   equivalence closure `conn` of the pair list, for every pair list over n atoms ---- *)
+Theorem C19_components_spec : forall n edges, bounded n edges ->
+  disjoint_comps (components n edges)
+  /\ (forall i, (i < n)%nat -> exists a, (a < length (components n edges))%nat /\ In i (nth a (components n edges) []))
+  /\ (forall a i j, (a < length (components n edges))%nat -> In i (nth a (components n edges) []) ->
+        (In j (nth a (components n edges) []) <-> (j < n)%nat /\ conn edges i j)).
+Proof. exact components_spec. Qed.
+Print Assumptions C19_components_spec.
+
+(* the second sentence of the property, end to end over the pair list: two atoms of admitted components carry the same non-negative label
+   exactly when they are connected; an atom of a non-admitted component keeps the supplied default *)
+Theorem C19_molecules_connected : forall default lo hi edges i j,
+  let n := length default in let lab := comp_labels n edges in let out := labels default lo hi (components n edges) in
+  bounded n edges -> (i < n)%nat -> (j < n)%nat ->
+  admitted_size lo hi (comp_of n lab i) = true -> admitted_size lo hi (comp_of n lab j) = true ->
+  (nth i out (-1)%Z = nth j out (-1)%Z <-> conn edges i j) /\ (0 <= nth i out (-1))%Z.
+Proof. exact molecules_connected. Qed.
+Print Assumptions C19_molecules_connected.
+Theorem C19_molecules_default_kept : forall default lo hi edges i,
+  let n := length default in let lab := comp_labels n edges in
+  bounded n edges -> (i < n)%nat -> admitted_size lo hi (comp_of n lab i) = false ->
+  nth i (labels default lo hi (components n edges)) (-1)%Z = nth i default (-1)%Z.
+Proof. exact molecules_default_kept. Qed.
+Print Assumptions C19_molecules_default_kept.
